@@ -38,6 +38,7 @@ INPUTS = [
     ".-.\n| |{t}\n'-'\n# Legend:\nt = {fill:red}\n",
     "x \"quoted <&> text\" y",
     "\n".join("+--+ .-. %d" % i + "\n|  |( a )\n+--+ `-'" for i in range(60)),
+    "  /\\\n /  \\\n/____\\\n\\    /\n \\  /",
 ]
 
 
@@ -117,7 +118,8 @@ def conversion_case(case, ref):
         elif case["in_mode"] == "stdin":
             stdin = text.encode()
         else:
-            if text.startswith("-") or "\\" in text or text in ("help", "build", ""):
+            # not expressible inline: a leading dash / a subcommand name (clap), or a literal backslash-n pair in the text itself
+            if text.startswith("-") or "\\n" in text or text in ("help", "build", ""):
                 return None
             argv = argv + ["-s", text.replace("\n", "\\n")]
         out_path = None
@@ -282,7 +284,7 @@ def enumerate_cases(tier):
                     k += 1
                     if (k + len(s)) % 3 != 0 and len(s) not in (0, 1, nopts):
                         continue
-                    conv.append(dict(subset=s, which=k % 2, out_mode=om, pre=pre, in_mode=im, input=1 + k % 4))
+                    conv.append(dict(subset=s, which=k % 2, out_mode=om, pre=pre, in_mode=im, input=1 + k % 4 if k % 5 else 6))
         for inp in range(len(INPUTS)):
             for (om, pre) in out_states:
                 for im in in_modes:
